@@ -12,7 +12,60 @@ Proof. destruct a, b; cbn; split; congruence. Qed.
 Lemma bstate_eqb_refl a : bstate_eqb a a = true.
 Proof. destruct a; reflexivity. Qed.
 
-Definition wstep (rm : N) (sp : bstate * option N) (e : cev) : option (bstate * option N) :=
+(** ** Membership and removal in the list of pending probes *)
+
+Lemma mem_n_In x l : mem_n x l = true <-> In x l.
+Proof.
+  induction l as [|y tl IH]; cbn [mem_n In].
+  - split; [discriminate | intros []].
+  - rewrite orb_true_iff, IH, N.eqb_eq.
+    split; intros [H|H]; [left; congruence | right; exact H | left; congruence | right; exact H].
+Qed.
+
+Lemma mem_n_false x l : mem_n x l = false <-> ~ In x l.
+Proof.
+  rewrite <- mem_n_In. destruct (mem_n x l); split; intros H; congruence.
+Qed.
+
+Lemma del_n_notin x l : ~ In x l -> del_n x l = l.
+Proof.
+  induction l as [|y tl IH]; intros H; cbn [del_n]; auto.
+  destruct (N.eqb_spec x y) as [->|Hne].
+  - exfalso. apply H. left. reflexivity.
+  - rewrite IH; auto. intros X. apply H. right. exact X.
+Qed.
+
+Lemma In_del_n x y l : In y (del_n x l) -> In y l.
+Proof.
+  induction l as [|z tl IH]; cbn [del_n]; auto.
+  destruct (x =? z); cbn [In]; intros H; [right; exact H|].
+  destruct H as [H|H]; [left; exact H | right; apply IH; exact H].
+Qed.
+
+Lemma In_del_n_other x y l : y <> x -> In y l -> In y (del_n x l).
+Proof.
+  intros Hne. induction l as [|z tl IH]; cbn [del_n]; auto.
+  destruct (N.eqb_spec x z) as [->|Hxz]; cbn [In]; intros [H|H].
+  - congruence.
+  - exact H.
+  - left; exact H.
+  - right; apply IH; exact H.
+Qed.
+
+Lemma NoDup_del_n x l : NoDup l -> NoDup (del_n x l) /\ ~ In x (del_n x l).
+Proof.
+  induction 1 as [|z tl Hz Hnd IH]; cbn [del_n].
+  - split; [constructor | intros []].
+  - destruct (N.eqb_spec x z) as [->|Hxz].
+    + split; assumption.
+    + destruct IH as [IH1 IH2]. split.
+      * constructor; auto. intros X. apply Hz. eapply In_del_n; exact X.
+      * cbn [In]. intros [X|X]; [congruence | exact (IH2 X)].
+Qed.
+
+(** ** The walk *)
+
+Definition wstep (rm : N) (sp : bstate * list N) (e : cev) : option (bstate * list N) :=
   let (s, p) := sp in
   match e with
   | ETrans who from to now retry =>
@@ -20,21 +73,18 @@ Definition wstep (rm : N) (sp : bstate * option N) (e : cev) : option (bstate * 
          (match from, to with
           | Open, HalfOpen => retry <=? now
           | Closed, Open => retry =? now + rm
+          | HalfOpen, Open => (retry =? now + rm) || mem_n who p
           | _, _ => true
           end)
-      then Some (to, match from, to with Open, HalfOpen => Some who | _, _ => p end)
+      then Some (to, match from, to with Open, HalfOpen => who :: p | _, _ => p end)
       else None
   | EBuild who adm =>
-      match p with
-      | Some w =>
-          if who =? w then Some (s, None)
-          else if (if adm then bstate_eqb s Closed else true) then Some (s, p) else None
-      | None => if (if adm then bstate_eqb s Closed else true) then Some (s, None) else None
-      end
+      if mem_n who p then Some (s, del_n who p)
+      else if (if adm then bstate_eqb s Closed else true) then Some (s, p) else None
   | EExit _ _ _ => Some (s, p)
   end.
 
-Fixpoint walk (rm : N) (sp : bstate * option N) (log : list cev) : option (bstate * option N) :=
+Fixpoint walk (rm : N) (sp : bstate * list N) (log : list cev) : option (bstate * list N) :=
   match log with
   | [] => Some sp
   | e :: tl => match wstep rm sp e with Some sp' => walk rm sp' tl | None => None end
@@ -49,7 +99,7 @@ Proof.
 Qed.
 
 Lemma walk_ok rm log : forall s p s',
-  walk rm (s, p) log = Some (s', None) -> ok_log rm s p log = true.
+  walk rm (s, p) log = Some (s', []) -> ok_log rm s p log = true.
 Proof.
   induction log as [|e tl IH]; intros s p s' H; cbn [walk] in H.
   - inversion H; subst; reflexivity.
@@ -57,14 +107,10 @@ Proof.
     + match type of H with (match (if ?c then _ else _) with _ => _ end) = _ => destruct c eqn:E end;
         try discriminate.
       cbn [andb]. eapply IH; exact H.
-    + destruct p as [w|].
-      * destruct (who =? w); [eapply IH; exact H|].
-        match type of H with (match (if ?c then _ else _) with _ => _ end) = _ => destruct c eqn:E end;
-          try discriminate.
-        cbn [andb]. eapply IH; exact H.
-      * match type of H with (match (if ?c then _ else _) with _ => _ end) = _ => destruct c eqn:E end;
-          try discriminate.
-        cbn [andb]. eapply IH; exact H.
+    + destruct (mem_n who p); [eapply IH; exact H|].
+      match type of H with (match (if ?c then _ else _) with _ => _ end) = _ => destruct c eqn:E end;
+        try discriminate.
+      cbn [andb]. eapply IH; exact H.
     + eapply IH; exact H.
 Qed.
 
@@ -77,22 +123,32 @@ Proof.
     + match type of H with (match (if ?c then _ else _) with _ => _ end) = _ => destruct c end;
         try discriminate.
       eapply IH; exact H.
-    + destruct p as [w|].
-      * destruct (who =? w); [eapply IH; exact H|].
-        match type of H with (match (if ?c then _ else _) with _ => _ end) = _ => destruct c end;
-          try discriminate.
-        eapply IH; exact H.
-      * match type of H with (match (if ?c then _ else _) with _ => _ end) = _ => destruct c end;
-          try discriminate.
-        eapply IH; exact H.
+    + destruct (mem_n who p); [eapply IH; exact H|].
+      match type of H with (match (if ?c then _ else _) with _ => _ end) = _ => destruct c end;
+        try discriminate.
+      eapply IH; exact H.
     + eapply IH; exact H.
+Qed.
+
+(** a build result: the thread's own pending probe is removed; otherwise nothing is pending for it
+    and a request that was let through needs the breaker Closed *)
+Lemma wstep_build rm who s pd adm :
+  In who pd \/ (adm = true -> s = Closed) ->
+  wstep rm (s, pd) (EBuild who adm) = Some (s, del_n who pd).
+Proof.
+  intros H. cbn [wstep]. destruct (mem_n who pd) eqn:E; [reflexivity|].
+  apply mem_n_false in E. rewrite (del_n_notin _ _ E).
+  destruct H as [H|H]; [contradiction|].
+  destruct adm; [rewrite (H eq_refl)|]; reflexivity.
 Qed.
 
 (* ------------------------------------------------------------------------------------------ *)
 (** * Code shapes *)
 
+(** the instructions of a build from its state read on occur only in the order the compiler
+    emits them *)
 Definition plain (i : cinstr) : bool :=
-  match i with BRead | BCas | BDone => false | _ => true end.
+  match i with BRead | BCas | BDone | BHook | BDoneBlocked => false | _ => true end.
 
 (** what follows the guarded transition of a build: its result, or (a later slot rejects the
     entry) the oracle point, the exit hook and the rejected result *)
@@ -124,6 +180,9 @@ Proof.
   - apply okc_compile. exact IH.
 Qed.
 
+Lemma okc_not_hook c : okc (BHook :: c) -> False.
+Proof. intros H. inversion H; subst. discriminate. Qed.
+
 Ltac cx H :=
   unfold cexec in H;
   cbn [set_code get_flag k_code k_done k_want k_hobad k_hook k_trip k_c2o k_ho2 k_live k_adm k_bad
@@ -146,59 +205,39 @@ Qed.
 Section Invariant.
 Variable r : brule.
 
-Definition Inv (st : cbs) (pr : option N) : Prop :=
-  s_rule st = r /\ walk (br_retry_ms r) (Closed, None) (s_log st) = Some (s_state st, pr).
+Definition Inv (st : cbs) (pd : list N) : Prop :=
+  s_rule st = r /\ walk (br_retry_ms r) (Closed, []) (s_log st) = Some (s_state st, pd).
 
-Lemma Inv_state st pr b retry e pr' :
-  Inv st pr -> wstep (br_retry_ms r) (s_state st, pr) e = Some (b, pr') ->
-  Inv (with_state st b retry e) pr'.
+Lemma Inv_state st pd b retry e pd' :
+  Inv st pd -> wstep (br_retry_ms r) (s_state st, pd) e = Some (b, pd') ->
+  Inv (with_state st b retry e) pd'.
 Proof.
   intros [H0 H1] H2. split; cbn [with_state s_rule s_log s_state]; auto.
   rewrite walk_app, H1. exact H2.
 Qed.
 
-Lemma Inv_log st pr e pr' :
-  Inv st pr -> wstep (br_retry_ms r) (s_state st, pr) e = Some (s_state st, pr') ->
-  Inv (with_log st e) pr'.
+Lemma Inv_log st pd e pd' :
+  Inv st pd -> wstep (br_retry_ms r) (s_state st, pd) e = Some (s_state st, pd') ->
+  Inv (with_log st e) pd'.
 Proof.
   intros [H0 H1] H2. split; cbn [with_log s_rule s_log s_state]; auto.
   rewrite walk_app, H1. exact H2.
 Qed.
 
-Lemma Inv_ring st pr rg : Inv st pr -> Inv (with_ring st rg) pr.
+Lemma Inv_ring st pd rg : Inv st pd -> Inv (with_ring st rg) pd.
 Proof. intros H; exact H. Qed.
 
-Lemma Inv_advance st pr dt : Inv st pr -> Inv (cadvance st dt) pr.
+Lemma Inv_advance st pd dt : Inv st pd -> Inv (cadvance st dt) pd.
 Proof. intros H; exact H. Qed.
 
-Lemma wstep_build_other rm who s pr adm :
-  (forall w, pr = Some w -> w <> who) -> (adm = true -> s = Closed) ->
-  wstep rm (s, pr) (EBuild who adm) = Some (s, pr).
+(** the plain instructions leave the pending probes alone; a failed completion logs the new
+    deadline, so whoever runs it the Half-Open -> Open clause holds *)
+Lemma exec_plain_inv who st pd t i st' t' p :
+  plain i = true -> Inv st pd ->
+  cexec true who st t i = (st', t', p) -> Inv st' pd.
 Proof.
-  intros Hn Ha. cbn [wstep]. destruct pr as [w|].
-  - destruct (N.eqb_spec who w) as [->|_]; [exfalso; apply (Hn w); reflexivity|].
-    destruct adm; [rewrite (Ha eq_refl)|]; reflexivity.
-  - destruct adm; [rewrite (Ha eq_refl)|]; reflexivity.
-Qed.
-
-Lemma wstep_build_own rm who s adm :
-  wstep rm (s, Some who) (EBuild who adm) = Some (s, None).
-Proof. cbn [wstep]. rewrite N.eqb_refl. reflexivity. Qed.
-
-(** the plain instructions keep the pending probe when it is another thread's *)
-Lemma exec_plain_inv who st pr t i st' t' p :
-  plain i = true -> Inv st pr -> (forall w, pr = Some w -> w <> who) ->
-  cexec true who st t i = (st', t', p) -> Inv st' pr.
-Proof.
-  intros Hp HI Hn H. destruct i; try discriminate Hp; cx H.
+  intros Hp HI H. destruct i; try discriminate Hp; cx H.
   - (* BStart *) injection H as <- _ _. exact HI.
-  - (* BHook *)
-    destruct (k_live t && bstate_eqb (s_state st) HalfOpen) eqn:E; injection H as <- _ _; try exact HI.
-    apply Inv_state with (pr := pr); auto.
-    apply andb_true_iff in E. destruct E as [_ E]. apply bstate_eqb_eq in E. rewrite E. reflexivity.
-  - (* BDoneBlocked *)
-    injection H as <- _ _. apply Inv_log with (pr := pr); auto.
-    apply wstep_build_other; [exact Hn | discriminate].
   - (* XBegin *)
     destruct (k_starts t); [injection H as <- _ _; exact HI|].
     destruct (write _ _ _ _); injection H as <- _ _; try exact HI.
@@ -206,23 +245,24 @@ Proof.
   - (* XCasH2O *)
     destruct (get_flag t f); [destruct (bstate_eqb (s_state st) HalfOpen) eqn:E|];
       injection H as <- _ _; try exact HI.
-    apply Inv_state with (pr := pr); auto.
-    apply bstate_eqb_eq in E. rewrite E. reflexivity.
+    apply Inv_state with (pd := pd); auto.
+    apply bstate_eqb_eq in E. rewrite E. destruct HI as [Hr _]. rewrite Hr.
+    cbn [wstep bstate_eqb valid_tr andb]. rewrite N.eqb_refl. reflexivity.
   - (* XCasH2C *)
     destruct (k_hook t); [|injection H as <- _ _; exact HI].
     destruct (bstate_eqb (s_state st) HalfOpen) eqn:E; injection H as <- _ _; apply Inv_ring; auto.
-    apply Inv_state with (pr := pr); auto.
+    apply Inv_state with (pd := pd); auto.
     apply bstate_eqb_eq in E. rewrite E. reflexivity.
   - (* XRead2 *) destruct (k_trip t); injection H as <- _ _; exact HI.
   - (* XCasC2O *)
     destruct (k_c2o t); [destruct (bstate_eqb (s_state st) Closed) eqn:E|];
       injection H as <- _ _; try exact HI.
-    apply Inv_state with (pr := pr); auto.
+    apply Inv_state with (pd := pd); auto.
     apply bstate_eqb_eq in E. rewrite E. destruct HI as [Hr _]. rewrite Hr.
     cbn [wstep bstate_eqb valid_tr andb]. rewrite N.eqb_refl. reflexivity.
   - (* XDone *)
     destruct (k_adm t); injection H as <- _ _; try exact HI.
-    apply Inv_log with (pr := pr); auto.
+    apply Inv_log with (pd := pd); auto.
   - (* CPoint *) injection H as <- _ _. exact HI.
   - (* CPointIf *) injection H as <- _ _. exact HI.
 Qed.
@@ -242,98 +282,105 @@ Definition own (t : cthr) : Prop :=
 Lemma parked_hook_okc t c : parked t (BHook :: BDoneBlocked :: c) -> okc c.
 Proof.
   intros [H | [(b & c' & Hc & _) | (c' & Hc & Ho)]].
-  - inversion H; subst.
-    match goal with H1 : okc (BDoneBlocked :: _) |- _ => inversion H1; subst end. assumption.
+  - destruct (okc_not_hook _ H).
   - discriminate.
   - injection Hc as <-. exact Ho.
 Qed.
 
 Section Seg.
 Variable who : N.
-(** [P w]: thread [w] is another thread, parked at the oracle point *)
+(** [P w]: thread [w] is parked at the oracle point; [Q w]: and it did Open -> Half-Open *)
 Variable P : N -> Prop.
+Variable Q : N -> Prop.
 
-Definition fgn (pr : option N) : Prop := forall w, pr = Some w -> w <> who /\ P w.
-Definition mof (pr : option N) : Prop := pr = Some who \/ fgn pr.
+(** the pending probes of the other threads: exactly those parked at the oracle point after
+    their own Open -> Half-Open, each once *)
+Definition fgn (pd : list N) : Prop :=
+  NoDup pd /\ (forall w, In w pd -> w <> who -> P w) /\ (forall w, w <> who -> Q w -> In w pd).
 
-Lemma fgn_ne pr : fgn pr -> forall w, pr = Some w -> w <> who.
-Proof. intros H w Hw. apply (H w Hw). Qed.
-
-Lemma fgn_none : fgn None.
-Proof. intros w X; discriminate. Qed.
-
-(** what may be left to run inside a segment, with the facts the remaining code relies on *)
-Inductive mid (st : cbs) (t : cthr) (pr : option N) : list cinstr -> Prop :=
-| mid_ok c : Inv st pr -> okc c -> fgn pr -> mid st t pr c
-| mid_pt p b c : Inv st pr -> okc c -> fgn pr ->
-    (k_want t = false -> k_adm t = true -> s_state st = Closed) ->
-    mid st t pr (CPointIf FWant p :: BCas :: btail b ++ c)
-| mid_cas b c : Inv st pr -> okc c -> fgn pr ->
-    (k_want t = false -> k_adm t = true -> s_state st = Closed) ->
-    mid st t pr (BCas :: btail b ++ c)
-| mid_done c : Inv st pr -> okc c ->
-    (pr = Some who \/ (fgn pr /\ (k_adm t = true -> s_state st = Closed))) ->
-    mid st t pr (BDone :: c)
-| mid_orc q c : Inv st pr -> okc c -> mof pr -> mid st t pr (CPoint q :: BHook :: BDoneBlocked :: c)
-| mid_hook c : Inv st pr -> okc c -> mof pr -> mid st t pr (BHook :: BDoneBlocked :: c)
-| mid_blk c : Inv st pr -> okc c -> mof pr -> mid st t pr (BDoneBlocked :: c).
-
-Lemma mid_Inv st t pr code : mid st t pr code -> Inv st pr.
-Proof. inversion 1; assumption. Qed.
-
-Lemma mid_nil st t pr : mid st t pr [] -> Inv st pr /\ fgn pr.
-Proof. inversion 1; split; assumption. Qed.
-
-Lemma tinv_mid st t pr : tinv t -> Inv st pr -> fgn pr -> mid st t pr (k_code t).
+Lemma fgn_push pd : fgn pd -> ~ In who pd -> fgn (who :: pd).
 Proof.
-  intros [H | [(b & c & Hc & Ho & Hw) | (c & Hc & Ho)]] HI Hg.
-  - apply mid_ok; assumption.
-  - rewrite Hc. apply mid_cas; auto. intros X; congruence.
-  - rewrite Hc. apply mid_hook; auto. right. exact Hg.
+  intros (H1 & H2 & H3) Hn. split; [constructor; assumption|]. split.
+  - intros w [<-|Hw] Hne; [exfalso; apply Hne; reflexivity | apply H2; assumption].
+  - intros w Hne Hq. right. apply H3; assumption.
 Qed.
 
-(** the thread's shape when a point fires, and whose probe is pending *)
-Definition pend (t : cthr) (pr : option N) (code : list cinstr) : Prop :=
-  parked t code /\
-  forall w, pr = Some w ->
-    (w = who /\ exists c, code = BHook :: BDoneBlocked :: c) \/ (w <> who /\ P w).
+Lemma fgn_del pd : fgn pd -> fgn (del_n who pd) /\ ~ In who (del_n who pd).
+Proof.
+  intros (H1 & H2 & H3). destruct (NoDup_del_n who pd H1) as [N1 N2].
+  split; [|exact N2]. split; [exact N1|]. split.
+  - intros w Hw Hne. apply H2; [eapply In_del_n; exact Hw | exact Hne].
+  - intros w Hne Hq. apply In_del_n_other; [exact Hne | apply H3; assumption].
+Qed.
 
-Lemma fgn_pend t pr code : parked t code -> fgn pr -> pend t pr code.
-Proof. intros Hp Hf. split; [exact Hp|]. intros w Hw. right. apply Hf. exact Hw. Qed.
+(** what may be left to run inside a segment, with the facts the remaining code relies on *)
+Inductive mid (st : cbs) (t : cthr) (pd : list N) : list cinstr -> Prop :=
+| mid_ok c : Inv st pd -> okc c -> fgn pd -> ~ In who pd -> mid st t pd c
+| mid_pt p b c : Inv st pd -> okc c -> fgn pd -> ~ In who pd ->
+    (k_want t = false -> k_adm t = true -> s_state st = Closed) ->
+    (k_want t = false -> k_live t = false) ->
+    mid st t pd (CPointIf FWant p :: BCas :: btail b ++ c)
+| mid_cas b c : Inv st pd -> okc c -> fgn pd -> ~ In who pd ->
+    (k_want t = false -> k_adm t = true -> s_state st = Closed) ->
+    (k_want t = false -> k_live t = false) ->
+    mid st t pd (BCas :: btail b ++ c)
+| mid_done c : Inv st pd -> okc c -> fgn pd ->
+    (In who pd \/ (k_adm t = true -> s_state st = Closed)) ->
+    mid st t pd (BDone :: c)
+| mid_orc q c : Inv st pd -> okc c -> fgn pd -> (k_live t = true -> In who pd) ->
+    mid st t pd (CPoint q :: BHook :: BDoneBlocked :: c)
+| mid_hook c : Inv st pd -> okc c -> fgn pd -> (k_live t = true -> In who pd) ->
+    mid st t pd (BHook :: BDoneBlocked :: c)
+| mid_blk c : Inv st pd -> okc c -> fgn pd -> mid st t pd (BDoneBlocked :: c).
+
+Lemma mid_Inv st t pd code : mid st t pd code -> Inv st pd.
+Proof. inversion 1; assumption. Qed.
+
+Lemma mid_fgn st t pd code : mid st t pd code -> fgn pd.
+Proof. inversion 1; assumption. Qed.
+
+Lemma mid_nil st t pd : mid st t pd [] -> Inv st pd /\ fgn pd /\ ~ In who pd.
+Proof. inversion 1; split; [assumption | split; assumption]. Qed.
+
+(** the thread's shape when a point fires, and whether its own probe is pending *)
+Definition atpt (t : cthr) (pd : list N) (code : list cinstr) : Prop :=
+  ((okc code \/ (exists b c, code = BCas :: btail b ++ c /\ okc c /\ k_want t = true)) /\
+   ~ In who pd) \/
+  (exists c, code = BHook :: BDoneBlocked :: c /\ okc c /\ (k_live t = true -> In who pd)).
 
 Definition keeps (t : cthr) (code : list cinstr) : Prop := k_code t = code /\ k_done t = false.
 
 Ltac nopt := let X := fresh in intros X; exfalso; apply X; reflexivity.
 
-Lemma step_mid st t pr i tl st' t' p :
-  mid st t pr (i :: tl) ->
+Lemma step_mid st t pd i tl st' t' p :
+  mid st t pd (i :: tl) ->
   cexec true who st (set_code t tl false) i = (st', t', p) ->
-  exists pr', mid st' t' pr' tl /\ k_code t' = tl /\ k_done t' = false /\
-              (p <> None -> pend t' pr' tl).
+  exists pd', mid st' t' pd' tl /\ k_code t' = tl /\ k_done t' = false /\
+              (p <> None -> atpt t' pd' tl).
 Proof.
   intros Hm H.
   assert (Hcd : keeps t' tl).
   { apply exec_code in H. cbn [set_code k_code k_done] in H. exact H. }
-  inversion Hm as [c HI Ho Hg Ec | p0 b c HI Ho Hg Hf Ec | b c HI Ho Hg Hf Ec | c HI Ho Hx Ec
-                   | q c HI Ho Hx Ec | c HI Ho Hx Ec | c HI Ho Hx Ec]; subst.
+  inversion Hm as [c HI Ho Hg Hn Ec | p0 b c HI Ho Hg Hn Hf Hl Ec | b c HI Ho Hg Hn Hf Hl Ec
+                   | c HI Ho Hg Hx Ec | q c HI Ho Hg Hx Ec | c HI Ho Hg Hx Ec | c HI Ho Hg Ec]; subst.
   - inversion Ho as [| i' c' Hp Ho' | p0 b c' Ho']; subst.
     + (* a plain instruction *)
       destruct Hcd as [Hc Hd].
-      exists pr. split; [|split; [exact Hc|split; [exact Hd|]]].
-      * apply mid_ok; auto. eapply exec_plain_inv; eauto using fgn_ne.
-      * intros _. apply fgn_pend; [left; exact Ho' | exact Hg].
+      exists pd. split; [|split; [exact Hc|split; [exact Hd|]]].
+      * apply mid_ok; auto. eapply exec_plain_inv; eauto.
+      * intros _. left. split; [left; exact Ho' | exact Hn].
     + (* BRead *)
-      exists pr. cx H.
+      exists pd. cx H.
       destruct (s_state st) eqn:Es; [| |destruct (s_retry st <=? s_now st)];
         cbv beta iota zeta in H; injection H as <- <- <-;
-        (split; [apply mid_pt; auto; cbn [k_want k_adm]; intros; congruence
+        (split; [apply mid_pt; auto; cbn [k_want k_adm k_live]; intros; congruence
                 |split; [reflexivity|split; [reflexivity|nopt]]]).
   - (* CPointIf FWant *)
-    cx H. injection H as <- <- <-. exists pr.
-    split; [apply mid_cas; [exact HI|exact Ho|exact Hg|exact Hf]|].
+    cx H. injection H as <- <- <-. exists pd.
+    split; [apply mid_cas; [exact HI|exact Ho|exact Hg|exact Hn|exact Hf|exact Hl]|].
     split; [reflexivity|]. split; [reflexivity|].
-    intros Hp. apply fgn_pend; [|exact Hg].
-    right; left. exists b, c. split; [reflexivity|]. split; [exact Ho|].
+    intros Hp. left. split; [|exact Hn].
+    right. exists b, c. split; [reflexivity|]. split; [exact Ho|].
     cbn [set_code k_want]. destruct (k_want t); [reflexivity | exfalso; apply Hp; reflexivity].
   - (* BCas *)
     cx H. destruct (k_want t) eqn:Ew.
@@ -342,101 +389,112 @@ Proof.
       * apply andb_true_iff in E. destruct E as [E1 E2]. cbn [negb orb] in E2.
         apply bstate_eqb_eq in E1.
         assert (HI' : Inv (with_state st HalfOpen (s_retry st)
-                             (ETrans who Open HalfOpen (s_now st) (s_retry st))) (Some who)).
-        { apply Inv_state with (pr := pr); [exact HI|].
+                             (ETrans who Open HalfOpen (s_now st) (s_retry st))) (who :: pd)).
+        { apply Inv_state with (pd := pd); [exact HI|].
           rewrite E1. cbn [wstep bstate_eqb valid_tr andb]. rewrite E2. reflexivity. }
-        exists (Some who). split; [|split; [reflexivity|split; [reflexivity|nopt]]].
+        pose proof (fgn_push pd Hg Hn) as Hg'.
+        exists (who :: pd). split; [|split; [reflexivity|split; [reflexivity|nopt]]].
         destruct b; cbn [btail app].
-        -- apply mid_orc; [exact HI'|exact Ho|left; reflexivity].
-        -- apply mid_done; [exact HI'|exact Ho|left; reflexivity].
-      * exists pr. split; [|split; [reflexivity|split; [reflexivity|nopt]]].
+        -- apply mid_orc; [exact HI'|exact Ho|exact Hg'|intros _; left; reflexivity].
+        -- apply mid_done; [exact HI'|exact Ho|exact Hg'|left; left; reflexivity].
+      * exists pd. split; [|split; [reflexivity|split; [reflexivity|nopt]]].
         destruct b; cbn [btail app].
-        -- apply mid_orc; [exact HI|exact Ho|right; exact Hg].
-        -- apply mid_done; [exact HI|exact Ho|right; split; [exact Hg|]].
+        -- apply mid_orc; [exact HI|exact Ho|exact Hg|]. cbn [k_live]. intros; discriminate.
+        -- apply mid_done; [exact HI|exact Ho|exact Hg|right].
            cbn [k_adm]. intros; discriminate.
     + injection H as <- <- <-.
-      exists pr. split; [|split; [reflexivity|split; [reflexivity|nopt]]].
+      assert (Hlv : k_live t = false) by (apply Hl; first [exact Ew | reflexivity]).
+      exists pd. split; [|split; [reflexivity|split; [reflexivity|nopt]]].
       destruct b; cbn [btail app].
-      * apply mid_orc; [exact HI|exact Ho|right; exact Hg].
-      * apply mid_done; [exact HI|exact Ho|right; split; [exact Hg|]].
+      * apply mid_orc; [exact HI|exact Ho|exact Hg|].
+        cbn [set_code k_live]. rewrite Hlv. intros; discriminate.
+      * apply mid_done; [exact HI|exact Ho|exact Hg|right].
         cbn [set_code k_adm]. intros Ha. apply Hf; [first [exact Ew | reflexivity] | exact Ha].
   - (* BDone *)
-    cx H. injection H as <- <- <-. destruct Hx as [-> | [Hg Hf]].
-    + exists None. split; [|split; [reflexivity|split; [reflexivity|nopt]]].
-      apply mid_ok; [|exact Ho|apply fgn_none].
-      apply Inv_log with (pr := Some who); [exact HI|]. apply wstep_build_own.
-    + exists pr. split; [|split; [reflexivity|split; [reflexivity|nopt]]].
-      apply mid_ok; [|exact Ho|exact Hg].
-      apply Inv_log with (pr := pr); [exact HI|].
-      apply wstep_build_other; [apply fgn_ne; exact Hg | exact Hf].
+    cx H. injection H as <- <- <-. destruct (fgn_del pd Hg) as [Hg' Hn'].
+    exists (del_n who pd). split; [|split; [reflexivity|split; [reflexivity|nopt]]].
+    apply mid_ok; [|exact Ho|exact Hg'|exact Hn'].
+    apply Inv_log with (pd := pd); [exact HI|]. apply wstep_build. exact Hx.
   - (* the oracle point *)
-    cx H. injection H as <- <- <-. exists pr.
-    split; [apply mid_hook; [exact HI|exact Ho|exact Hx]|].
+    cx H. injection H as <- <- <-. exists pd.
+    split; [apply mid_hook; [exact HI|exact Ho|exact Hg|exact Hx]|].
     split; [reflexivity|]. split; [reflexivity|].
-    intros _. split.
-    + right; right. exists c. split; [reflexivity | exact Ho].
-    + intros w Hw. destruct Hx as [Hx | Hx].
-      * left. rewrite Hx in Hw. injection Hw as <-. split; [reflexivity|]. exists c; reflexivity.
-      * right. apply Hx. exact Hw.
+    intros _. right. exists c. split; [reflexivity|]. split; [exact Ho | exact Hx].
   - (* BHook *)
     cx H. destruct (k_live t && bstate_eqb (s_state st) HalfOpen) eqn:E; injection H as <- <- <-;
-      exists pr; (split; [|split; [reflexivity|split; [reflexivity|nopt]]]).
-    + apply mid_blk; [|exact Ho|exact Hx].
-      apply Inv_state with (pr := pr); [exact HI|].
-      apply andb_true_iff in E. destruct E as [_ E]. apply bstate_eqb_eq in E. rewrite E. reflexivity.
-    + apply mid_blk; [exact HI|exact Ho|exact Hx].
+      exists pd; (split; [|split; [reflexivity|split; [reflexivity|nopt]]]).
+    + apply mid_blk; [|exact Ho|exact Hg].
+      apply Inv_state with (pd := pd); [exact HI|].
+      apply andb_true_iff in E. destruct E as [E0 E]. apply bstate_eqb_eq in E. rewrite E.
+      cbn [wstep bstate_eqb valid_tr andb].
+      rewrite (proj2 (mem_n_In _ _) (Hx E0)), orb_true_r. reflexivity.
+    + apply mid_blk; [exact HI|exact Ho|exact Hg].
   - (* BDoneBlocked *)
-    cx H. injection H as <- <- <-. destruct Hx as [-> | Hg].
-    + exists None. split; [|split; [reflexivity|split; [reflexivity|nopt]]].
-      apply mid_ok; [|exact Ho|apply fgn_none].
-      apply Inv_log with (pr := Some who); [exact HI|]. apply wstep_build_own.
-    + exists pr. split; [|split; [reflexivity|split; [reflexivity|nopt]]].
-      apply mid_ok; [|exact Ho|exact Hg].
-      apply Inv_log with (pr := pr); [exact HI|].
-      apply wstep_build_other; [apply fgn_ne; exact Hg | discriminate].
+    cx H. injection H as <- <- <-. destruct (fgn_del pd Hg) as [Hg' Hn'].
+    exists (del_n who pd). split; [|split; [reflexivity|split; [reflexivity|nopt]]].
+    apply mid_ok; [|exact Ho|exact Hg'|exact Hn'].
+    apply Inv_log with (pd := pd); [exact HI|]. apply wstep_build. right. discriminate.
 Qed.
 
-Lemma cseg_inv : forall code st t pr st' t' p,
-  mid st t pr code -> cseg true who st t code = (st', t', p) ->
-  exists pr', Inv st' pr' /\ tinv t' /\
-              forall w, pr' = Some w -> (w = who /\ own t') \/ (w <> who /\ P w).
+Lemma cseg_inv : forall code st t pd st' t' p,
+  mid st t pd code -> cseg true who st t code = (st', t', p) ->
+  exists pd', Inv st' pd' /\ tinv t' /\ fgn pd' /\
+              (In who pd' -> own t') /\ (own t' -> k_live t' = true -> In who pd').
 Proof.
-  induction code as [|i tl IH]; intros st t pr st' t' p Hm H; cbn [cseg] in H.
-  - injection H as <- <- _. apply mid_nil in Hm. destruct Hm as [HI Hg].
-    exists pr. split; [exact HI|]. split; [left; cbn [set_code k_code]; constructor|].
-    intros w Hw. right. apply Hg. exact Hw.
+  induction code as [|i tl IH]; intros st t pd st' t' p Hm H; cbn [cseg] in H.
+  - injection H as <- <- _. apply mid_nil in Hm. destruct Hm as (HI & Hg & Hn).
+    exists pd. split; [exact HI|]. split; [left; cbn [set_code k_code]; constructor|].
+    split; [exact Hg|]. split.
+    + intros X. contradiction.
+    + intros [X _]. cbn [set_code k_done] in X. discriminate X.
   - destruct (cexec true who st (set_code t tl false) i) as [[st1 t1] p1] eqn:E.
-    destruct (step_mid _ _ _ _ _ _ _ _ Hm E) as (pr1 & M & Hc & Hd & Hp).
+    destruct (step_mid _ _ _ _ _ _ _ _ Hm E) as (pd1 & M & Hc & Hd & Hp).
     destruct p1 as [q|].
-    + injection H as <- <- _. destruct Hp as [Hk Hw]; [discriminate|].
-      exists pr1. split; [eapply mid_Inv; exact M|].
-      split; [unfold tinv; rewrite Hc; exact Hk|].
-      intros w X. destruct (Hw w X) as [[Ew [c Ec]] | R]; [left | right; exact R].
-      split; [exact Ew|]. split; [exact Hd|]. exists c. rewrite Hc. exact Ec.
+    + injection H as <- <- _.
+      exists pd1. split; [eapply mid_Inv; exact M|].
+      destruct Hp as [[Hk Hn] | (c & Ec & Ho & Hx)]; [discriminate| |].
+      * split; [unfold tinv; rewrite Hc; destruct Hk as [Hk|Hk]; [left; exact Hk | right; left; exact Hk]|].
+        split; [eapply mid_fgn; exact M|]. split.
+        -- intros X. contradiction.
+        -- intros [_ [c Ec]] _. exfalso. rewrite Hc in Ec.
+           destruct Hk as [Hk | (b & c' & Hk & _)].
+           ++ rewrite Ec in Hk. exact (okc_not_hook _ Hk).
+           ++ rewrite Ec in Hk. discriminate Hk.
+      * split; [unfold tinv; rewrite Hc; right; right; exists c; split; [exact Ec | exact Ho]|].
+        split; [eapply mid_fgn; exact M|]. split.
+        -- intros _. split; [exact Hd|]. exists c. rewrite Hc. exact Ec.
+        -- intros _ Hl. apply Hx. exact Hl.
     + eapply IH; eauto.
 Qed.
 
-Lemma run_code_inv : forall code st t pr st' t',
-  mid st t pr code -> run_code true who st t code = (st', t') -> exists pr', Inv st' pr' /\ fgn pr'.
+Lemma run_code_inv : forall code st t pd st' t',
+  mid st t pd code -> run_code true who st t code = (st', t') ->
+  exists pd', Inv st' pd' /\ fgn pd' /\ ~ In who pd'.
 Proof.
-  induction code as [|i tl IH]; intros st t pr st' t' Hm H; cbn [run_code] in H.
-  - injection H as <- <-. exists pr. apply mid_nil in Hm. exact Hm.
+  induction code as [|i tl IH]; intros st t pd st' t' Hm H; cbn [run_code] in H.
+  - injection H as <- <-. exists pd. apply mid_nil in Hm. exact Hm.
   - destruct (cexec true who st (set_code t tl false) i) as [[st1 t1] p1] eqn:E.
-    destruct (step_mid _ _ _ _ _ _ _ _ Hm E) as (pr1 & M & _).
+    destruct (step_mid _ _ _ _ _ _ _ _ Hm E) as (pd1 & M & _).
     eapply IH; eauto.
 Qed.
 
 End Seg.
 
-Lemma prelude_inv : forall ops st t, Inv st None -> Inv (prelude true st t ops) None.
+Lemma prelude_inv : forall ops st t, Inv st [] -> Inv (prelude true st t ops) [].
 Proof.
-  assert (K : forall st t o st1 t1, Inv st None ->
-            run_code true 0 st t (compile_op o) = (st1, t1) -> Inv st1 None).
+  assert (F0 : fgn 0 (fun _ => False) (fun _ => False) []).
+  { split; [constructor|]. split; [intros w [] | intros w _ []]. }
+  assert (K : forall st t o st1 t1, Inv st [] ->
+            run_code true 0 st t (compile_op o) = (st1, t1) -> Inv st1 []).
   { intros st t o st1 t1 HI E.
-    destruct (run_code_inv 0 (fun _ => False) _ _ _ _ _ _
-                (mid_ok 0 (fun _ => False) st t None _ HI (okc_op o) (fgn_none _ _)) E)
-      as (pr' & HI' & Hg).
-    destruct pr' as [w|]; [destruct (Hg w eq_refl) as [_ []] | exact HI']. }
+    destruct (run_code_inv 0 (fun _ => False) (fun _ => False) _ _ _ _ _ _
+                (mid_ok 0 (fun _ => False) (fun _ => False) st t [] _ HI (okc_op o) F0
+                        (fun X : In 0 [] => X)) E)
+      as (pd' & HI' & (_ & Hg & _) & Hn).
+    destruct pd' as [|w l]; [exact HI'|]. exfalso.
+    destruct (N.eq_dec w 0) as [->|Hne].
+    - apply Hn. left. reflexivity.
+    - exact (Hg w (or_introl eq_refl) Hne). }
   induction ops as [|o ops IH]; intros st t HI; cbn [prelude]; auto.
   destruct o as [|err|dt].
   - destruct (run_code true 0 st t (compile_op (KB false))) as [st1 t1] eqn:E. apply IH.
@@ -452,8 +510,13 @@ Qed.
 Definition Pth (ths : list cthr) (w : N) : Prop :=
   exists tid t, w = N.of_nat tid + 1 /\ nth_error ths tid = Some t /\ own t.
 
+(** ... after its own Open -> Half-Open *)
+Definition Qth (ths : list cthr) (w : N) : Prop :=
+  exists tid t, w = N.of_nat tid + 1 /\ nth_error ths tid = Some t /\ own t /\ k_live t = true.
+
 Definition G (st : cbs) (ths : list cthr) : Prop :=
-  exists pr, Inv st pr /\ Forall tinv ths /\ forall w, pr = Some w -> Pth ths w.
+  exists pd, Inv st pd /\ Forall tinv ths /\ NoDup pd /\
+             (forall w, In w pd -> Pth ths w) /\ (forall w, Qth ths w -> In w pd).
 
 Lemma Forall_upd {A} (Q : A -> Prop) : forall l i x, Forall Q l -> Q x -> Forall Q (upd l i x).
 Proof.
@@ -464,34 +527,52 @@ Qed.
 Lemma csched_step_G st ths tid st' ths' tr :
   G st ths -> csched_step true st ths tid = (st', ths', tr) -> G st' ths'.
 Proof.
-  intros (pr & HI & HF & HP) H. unfold csched_step in H.
-  destruct (nth_error ths tid) as [t|] eqn:En; [|injection H as <- <- _; exists pr; auto].
-  destruct (k_done t); [injection H as <- <- _; exists pr; auto|].
+  intros (pd & HI & HF & HN & HP & HQ) H. unfold csched_step in H.
+  destruct (nth_error ths tid) as [t|] eqn:En;
+    [|injection H as <- <- _; exists pd; exact (conj HI (conj HF (conj HN (conj HP HQ))))].
+  destruct (k_done t) eqn:Edn; [injection H as <- <- _; exists pd; exact (conj HI (conj HF (conj HN (conj HP HQ))))|].
   destruct (cseg true (N.of_nat tid + 1) st t (k_code t)) as [[st1 t1] p1] eqn:E.
   injection H as <- <- _.
   assert (Ht : tinv t).
   { rewrite Forall_forall in HF. apply HF. eapply nth_error_In; eauto. }
-  assert (Hm : mid (N.of_nat tid + 1) (Pth ths) st t pr (k_code t)).
-  { destruct pr as [w|].
-    - destruct (N.eq_dec w (N.of_nat tid + 1)) as [->|Hne].
-      + destruct (HP _ eq_refl) as (tid' & t0 & Hw & Hn & Hd0 & c & Hcode).
-        assert (tid' = tid) by lia. subst tid'. rewrite En in Hn. injection Hn as <-.
-        unfold tinv in Ht. rewrite Hcode in Ht |- *.
-        apply mid_hook; [exact HI | eapply parked_hook_okc; exact Ht | left; reflexivity].
-      + apply tinv_mid; auto. intros w' X; injection X as <-.
-        split; [exact Hne | apply HP; reflexivity].
-    - apply tinv_mid; auto. apply fgn_none. }
-  destruct (cseg_inv _ _ _ _ _ _ _ _ _ Hm E) as (pr' & HI1 & Ht1 & Hw).
-  exists pr'. split; [exact HI1|]. split; [apply Forall_upd; auto|].
-  intros w X. destruct (Hw w X) as [[-> Ho] | [Hne (tid' & t0 & Hw0 & Hn & Ho)]].
-  - exists tid, t1. split; [reflexivity|]. split; [eapply nth_error_upd_same; exact En | exact Ho].
-  - exists tid', t0. split; [exact Hw0|]. split; [|exact Ho].
-    rewrite nth_error_upd_other; [exact Hn|]. intros Heq. subst tid'. apply Hne. exact Hw0.
+  assert (Hg : fgn (N.of_nat tid + 1) (Pth ths) (Qth ths) pd).
+  { split; [exact HN|]. split.
+    - intros w Hw _. apply HP. exact Hw.
+    - intros w _ Hq. apply HQ. exact Hq. }
+  (* the thread that runs is in the list of pending probes only when parked at the oracle point *)
+  assert (Hown : In (N.of_nat tid + 1) pd -> own t).
+  { intros Hw. destruct (HP _ Hw) as (tid' & t0 & Hw0 & Hn & Ho).
+    assert (tid' = tid) by lia. subst tid'. rewrite En in Hn. injection Hn as <-. exact Ho. }
+  assert (Hm : mid (N.of_nat tid + 1) (Pth ths) (Qth ths) st t pd (k_code t)).
+  { destruct Ht as [Hk | [(b & c & Hc & Ho & Hw) | (c & Hc & Ho)]].
+    - apply mid_ok; auto. intros X. destruct (Hown X) as [_ [c Hc]].
+      rewrite Hc in Hk. exact (okc_not_hook _ Hk).
+    - rewrite Hc. apply mid_cas; auto.
+      + intros X. destruct (Hown X) as [_ [c' Hc']]. rewrite Hc in Hc'. discriminate Hc'.
+      + intros X; congruence.
+      + intros X; congruence.
+    - rewrite Hc. apply mid_hook; auto.
+      intros Hl. apply HQ. exists tid, t. split; [reflexivity|]. split; [exact En|].
+      split; [|exact Hl]. split; [exact Edn|]. exists c. exact Hc. }
+  destruct (cseg_inv _ _ _ _ _ _ _ _ _ _ Hm E) as (pd' & HI1 & Ht1 & (N1 & P1 & Q1) & Hw1 & Hw2).
+  exists pd'. split; [exact HI1|]. split; [apply Forall_upd; auto|]. split; [exact N1|]. split.
+  - intros w X. destruct (N.eq_dec w (N.of_nat tid + 1)) as [->|Hne].
+    + exists tid, t1. split; [reflexivity|].
+      split; [eapply nth_error_upd_same; exact En | exact (Hw1 X)].
+    + destruct (P1 w X Hne) as (tid' & t0 & Hw0 & Hn & Ho).
+      exists tid', t0. split; [exact Hw0|]. split; [|exact Ho].
+      rewrite nth_error_upd_other; [exact Hn|]. intros Heq. subst tid'. apply Hne. exact Hw0.
+  - intros w (tid' & t0 & Hw0 & Hn & Ho & Hl).
+    destruct (Nat.eq_dec tid' tid) as [->|Hne].
+    + rewrite (nth_error_upd_same _ _ _ _ En) in Hn. injection Hn as <-.
+      rewrite Hw0. apply Hw2; assumption.
+    + rewrite nth_error_upd_other in Hn by congruence.
+      apply Q1; [lia|]. exists tid', t0. split; [exact Hw0|]. split; [exact Hn|]. split; [exact Ho | exact Hl].
 Qed.
 
 Lemma G_advance st ths dt : G st ths -> G (cadvance st dt) ths.
 Proof.
-  intros (pr & HI & HF & HP). exists pr. split; [apply Inv_advance; exact HI|]. split; assumption.
+  intros (pd & HI & HF & HP). exists pd. split; [apply Inv_advance; exact HI|]. split; assumption.
 Qed.
 
 Lemma crun_sched_G : forall steps st ths st' ths' tr,
@@ -538,20 +619,26 @@ Proof.
   destruct (cfinish true (ccode_total ths1) st1 ths1) as [[st2 ths2] tr2] eqn:E2.
   injection H as <- <- _.
   assert (G0 : G (prelude true (cbs0 base r) (cthr0 []) pre) (map (fun p => cthr0 (ccompile p)) progs)).
-  { exists None. split; [|split].
+  { exists []. split; [|split; [|split; [|split]]].
     - apply prelude_inv. split; reflexivity.
     - apply Forall_forall. intros t Ht. apply in_map_iff in Ht. destruct Ht as (p & <- & _).
       left. cbn [cthr0 k_code]. apply okc_ccompile.
-    - intros w X; discriminate. }
+    - constructor.
+    - intros w [].
+    - (* a fresh thread is not parked at the oracle point *)
+      intros w (tid & t & _ & Hn & [_ [c Hc]] & _). exfalso.
+      apply nth_error_In in Hn. apply in_map_iff in Hn. destruct Hn as (p & <- & _).
+      cbn [cthr0 k_code] in Hc. pose proof (okc_ccompile p) as Hk. rewrite Hc in Hk.
+      exact (okc_not_hook _ Hk). }
   pose proof (crun_sched_G _ _ _ _ _ _ G0 E1) as G1.
   exact (cfinish_G _ _ _ _ _ _ G1 E2).
 Qed.
 
 (** when every thread is done nobody is parked at the oracle point: no probe is pending *)
-Lemma G_done st ths : G st ths -> call_done ths = true -> Inv st None.
+Lemma G_done st ths : G st ths -> call_done ths = true -> Inv st [].
 Proof.
-  intros (pr & HI & _ & HP) Hd. destruct pr as [w|]; [|exact HI]. exfalso.
-  destruct (HP w eq_refl) as (tid & t & _ & Hn & Hk & _).
+  intros (pd & HI & _ & _ & HP & _) Hd. destruct pd as [|w l]; [exact HI|]. exfalso.
+  destruct (HP w (or_introl eq_refl)) as (tid & t & _ & Hn & Hk & _).
   unfold call_done in Hd. rewrite forallb_forall in Hd.
   apply nth_error_In in Hn. rewrite (Hd _ Hn) in Hk. discriminate.
 Qed.
@@ -698,7 +785,7 @@ Theorem c16_log_state : forall base r pre progs steps st ths tr,
   log_state Closed (s_log st) = s_state st.
 Proof.
   intros base r pre progs steps st ths tr H.
-  apply crun_case_G in H. destruct H as (pr & [_ HW] & _).
+  apply crun_case_G in H. destruct H as (pd & [_ HW] & _).
   eapply walk_log_state. exact HW.
 Qed.
 
